@@ -171,7 +171,7 @@ fn payload_str(p: &(dyn Any + Send)) -> String {
 
 /// Normalise a panic into a stable signature: source file (relative to the
 /// repository) and the message with digits collapsed, never a line number.
-fn panic_sig(loc: &str, msg: &str) -> String {
+pub fn panic_sig(loc: &str, msg: &str) -> String {
     let file = loc.rsplit_once(':').map(|x| x.0).unwrap_or(loc);
     let file = file.strip_prefix("/repo/").unwrap_or(file);
     let file = match file.find("/.cargo/registry/src/") {
@@ -195,6 +195,16 @@ fn panic_sig(loc: &str, msg: &str) -> String {
         }
     }
     format!("panic@{}: {}", file, m)
+}
+
+/// Run `f` under catch_unwind *inside* a check (the hook stays quiet); on panic
+/// returns the (location, message) recorded by the hook.
+pub fn catch_inner<T, F: FnOnce() -> T>(f: F) -> Result<T, (String, String)> {
+    LAST_PANIC.with(|p| *p.borrow_mut() = None);
+    match catch_unwind(AssertUnwindSafe(f)) {
+        Ok(v) => Ok(v),
+        Err(e) => Err(LAST_PANIC.with(|p| p.borrow_mut().take()).unwrap_or_else(|| ("?".into(), payload_str(&*e)))),
+    }
 }
 
 /// Run a check function, turning a panic into a failing verdict.
